@@ -54,8 +54,11 @@ def _vacuity_proj(path):
                 for it in e[sec]["items"]:
                     if sum(len(l) + 1 for l in it[0]) + 1 == 255:
                         seen.add("owner255:" + sec)
-                    if it[1] in (47, 50, 64, 16, 45, 250):
+                    if it[1] in (47, 50, 64, 65, 16, 45, 250):
                         seen.add("typed:%d" % it[1])
+                    for o in it[6]["opts"]:
+                        if o[0] in (8, 10, 11, 15):
+                            seen.add("option:%d" % o[0])
             if e["q"]["err"]:
                 seen.add("qerr")
             if e["iter"][1] == 2:
@@ -67,7 +70,7 @@ def _vacuity_proj(path):
             "items:an", "items:ns", "items:ar", "rd:names:True", "rd:names:False",
             "rd:opt:True", "rd:opt:False", "rd:fixed:True", "rd:fixed:False", "rd:raw:True",
             "rd:opaque:True", "itererr", "qname255", "owner255:an", "owner255:ns", "owner255:ar",
-            "typed:47", "typed:50", "typed:64", "typed:16", "typed:45", "typed:250", "dev:D_cname_ancount_overflow",
+            "typed:47", "typed:50", "typed:64", "typed:65", "option:8", "option:10", "option:11", "option:15", "typed:16", "typed:45", "typed:250", "dev:D_cname_ancount_overflow",
             "dev:D_xfr_unreachable_qtype", "dev:D_slice_iter"}
     missing = sorted(need - seen)
     if missing:
